@@ -86,7 +86,18 @@ let eval_stream (stream : string) (case : string) (impl : string) : verdict =
       | 'T' -> Model.OSetChunked
       | 'C' -> Model.OSetClose
       | _ -> failwith "bad op" in
-    let ops = List.map parse_op (List.filter (fun x -> x <> "") (split_on ';' case)) in
+    (* optional constructor prefix V<n> / S<n> (the first n adds go through a bulk constructor: their per-step dumps are `~` except
+       the last) or N (new_nodate): for the model and the spec a constructor is the same history of adds *)
+    let raw_ops = List.filter (fun x -> x <> "") (split_on ';' case) in
+    let (masked, raw_ops) = match raw_ops with
+      | o :: rest when o.[0] = 'V' || o.[0] = 'S' ->
+        let rec lead = function x :: r when x.[0] = 'A' -> 1 + lead r | _ -> 0 in
+        let n = min (try int_of_string (String.sub o 1 (String.length o - 1)) with _ -> 0) (lead rest) in
+        (max 0 (n - 1), rest)
+      | o :: rest when o = "N" -> (0, rest)
+      | l -> (0, l) in
+    let mask l = List.mapi (fun i x -> if i < masked then "~" else x) l in
+    let ops = List.map parse_op raw_ops in
     let b01 b = if b then "1" else "0" in
     let cl_s = function None -> "-" | Some n -> string_of_n n in
     let fields_s fs = "[" ^ String.concat "," (List.map (fun (k, v) -> hex_of_bytes k ^ ":" ^ hex_of_bytes v) fs) ^ "]" in
@@ -103,7 +114,7 @@ let eval_stream (stream : string) (case : string) (impl : string) : verdict =
         let pb = bytes_of_string p in
         Printf.sprintf "|g:%s=%s/%s" (hex_of_bytes pb)
           (match Model.get hf pb with Some v -> hex_of_bytes v | None -> "none") (fields_s (Model.get_all hf pb))) probes in
-    let model = String.concat ";" steps ^ "|" ^ fields_s hf.Model.stored ^ String.concat "" gs
+    let model = String.concat ";" (mask steps) ^ "|" ^ fields_s hf.Model.stored ^ String.concat "" gs
                 ^ "|te=" ^ toks_s (Model.token_values hf (bytes_of_string "transfer-encoding"))
                 ^ "|cv=" ^ toks_s (Model.token_values hf (bytes_of_string "connection")) in
     (* spec, evaluated independently of the model: history -> stored fields -> fresh evaluation *)
@@ -118,7 +129,7 @@ let eval_stream (stream : string) (case : string) (impl : string) : verdict =
         Printf.sprintf "|g:%s=%s/%s" (hex_of_bytes pb)
           (match Model.lookup_last sf pb with Some v -> hex_of_bytes v | None -> "none") (fields_s (Model.lookup_all sf pb))) probes in
     let tv name = List.concat_map (fun (_, v) -> Model.tokens v) (Model.lookup_all sf (bytes_of_string name)) in
-    let spec = String.concat ";" ssteps ^ "|" ^ fields_s sf ^ String.concat "" sgs
+    let spec = String.concat ";" (mask ssteps) ^ "|" ^ fields_s sf ^ String.concat "" sgs
                ^ "|te=" ^ toks_s (tv "transfer-encoding") ^ "|cv=" ^ toks_s (tv "connection") in
     { model; fails = (if spec <> impl then [("C19", "-")] else []) }
   | "parse" -> let (model, fails) = Parse_o.eval_parse case impl in { model; fails }
